@@ -5,6 +5,9 @@ of `impl_checked_add_signed!` (common/src/util.rs) from the source on every run,
 C20 theorem is re-checked against what the code says now.
 
 Types tracked:  U (unsigned `Self`), I (signed `Rhs`), B (bool), OptU, (U,B) pairs.
+Subset: `let` (variable / pair pattern), `if/else` (also as `if c { return e; }` statements), `match` on a bool or a
+tuple of bools with literal / `_` / or-patterns, the integer methods of METHODS, `as Self`, comparisons between two
+values of one view or with a literal, boolean operators, `Some(..)`, `None`, `Self::MAX`, `Self::MIN`.
 Anything outside the subset raises Unsupported -> extraction fails loudly (broken obligation).
 """
 import re
@@ -18,7 +21,7 @@ TOKEN_RE = re.compile(r"""
     \s*(?:
       (?P<num>\d[\d_]*)
      |(?P<id>[A-Za-z_][A-Za-z0-9_]*)
-     |(?P<op>\|\||&&|==|!=|<=|>=|<<|>>|[-+*/^|&<>!=(){};,.:])
+     |(?P<op>\|\||&&|==|!=|<=|>=|=>|::|<<|>>|[-+*/^|&<>!=(){};,.:])
     )""", re.X)
 
 
@@ -79,10 +82,41 @@ class Parser:
             e = self.expr()
             self.eat("op", ";")
             stmts.append((pat, e))
-        e = self.expr()
+        # `if c { return e; }` followed by the rest of the block  ==  if c { e } else { rest }
+        if self.at("if") and self._is_early_return():
+            self.eat()
+            c = self.binary(0)
+            self.eat("op", "{")
+            self.eat("id", "return")
+            r = self.expr()
+            if self.at(";"):
+                self.eat()
+            self.eat("op", "}")
+            rest = self.block(braces=False)
+            if braces:
+                self.eat("op", "}")
+            return ("block", stmts, ("if", c, ("block", [], r), rest))
+        if self.at("return"):
+            self.eat()
+            e = self.expr()
+            if self.at(";"):
+                self.eat()
+        else:
+            e = self.expr()
         if braces:
             self.eat("op", "}")
         return ("block", stmts, e)
+
+    def _is_early_return(self):
+        # look ahead: `if <cond> { return` with the matching `}` NOT followed by `else`
+        j, depth = self.i + 1, 0
+        while j < len(self.t) and not (self.t[j] == ("op", "{") and depth == 0):
+            if self.t[j] == ("op", "("):
+                depth += 1
+            if self.t[j] == ("op", ")"):
+                depth -= 1
+            j += 1
+        return j + 1 < len(self.t) and self.t[j + 1] == ("id", "return")
 
     def expr(self):
         if self.at("if"):
@@ -92,7 +126,43 @@ class Parser:
             self.eat("id", "else")
             f = self.block()
             return ("if", c, t, f)
+        if self.at("match"):
+            self.eat()
+            scrut = self.binary(0)
+            self.eat("op", "{")
+            arms = []
+            while not self.at("}"):
+                pats = [self.pattern()]
+                while self.at("|"):
+                    self.eat()
+                    pats.append(self.pattern())
+                self.eat("op", "=>")
+                if self.at("{"):
+                    body = self.block()
+                else:
+                    body = self.expr()
+                if self.at(","):
+                    self.eat()
+                arms.append((pats, body))
+            self.eat("op", "}")
+            return ("match", scrut, arms)
         return self.binary(0)
+
+    def pattern(self):
+        if self.at("("):
+            self.eat()
+            items = [self.pattern()]
+            while self.at(","):
+                self.eat()
+                if self.at(")"):
+                    break
+                items.append(self.pattern())
+            self.eat("op", ")")
+            return ("ptuple", items)
+        k, v = self.eat("id")
+        if v in ("true", "false", "_"):
+            return ("plit", v)
+        raise Unsupported("pattern " + v)
 
     LEVELS = [["||"], ["&&"], ["==", "!=", "<", "<=", ">", ">="], ["|"], ["^"], ["&"], ["+", "-"]]
 
@@ -146,6 +216,15 @@ class Parser:
         if k == "op" and v == "(":
             self.eat()
             e = self.expr()
+            if self.at(","):
+                items = [e]
+                while self.at(","):
+                    self.eat()
+                    if self.at(")"):
+                        break
+                    items.append(self.expr())
+                self.eat("op", ")")
+                return ("tuple", items)
             self.eat("op", ")")
             return e
         if k == "id":
@@ -159,16 +238,32 @@ class Parser:
                 return ("some", e)
             if v in ("true", "false"):
                 return ("bool", v)
+            if v == "Self" and self.at("::"):
+                self.eat()
+                c = self.eat("id")[1]
+                if c in ("MAX", "MIN"):
+                    return ("const", "U", c)
+                raise Unsupported("Self::" + c)
             return ("var", v)
         raise Unsupported("unexpected token %s %s" % (k, v))
 
 
 METHODS = {
-    # name: (lean function, arg types, result type)
-    "overflowing_add": ("overflowingAdd", ["U"], ("pair", "U", "B")),
-    "wrapping_add": ("wrappingAdd", ["U"], "U"),
-    "checked_add": ("checkedAdd", ["U"], "OptU"),
-    "saturating_add": ("saturatingAdd", ["U"], "U"),
+    # (receiver type, name): (lean function, arg types, result type)
+    ("U", "overflowing_add"): ("overflowingAdd", ["U"], ("pair", "U", "B")),
+    ("U", "overflowing_sub"): ("overflowingSub", ["U"], ("pair", "U", "B")),
+    ("U", "wrapping_add"): ("wrappingAdd", ["U"], "U"),
+    ("U", "wrapping_sub"): ("wrappingSub", ["U"], "U"),
+    ("U", "checked_add"): ("checkedAdd", ["U"], "OptU"),
+    ("U", "checked_sub"): ("checkedSub", ["U"], "OptU"),
+    ("U", "saturating_add"): ("saturatingAdd", ["U"], "U"),
+    ("U", "saturating_sub"): ("saturatingSub", ["U"], "U"),
+    ("I", "unsigned_abs"): ("unsignedAbs", [], "U"),
+    ("I", "wrapping_neg"): ("wrappingNeg", [], "I"),
+    ("I", "saturating_neg"): ("saturatingNeg", [], "I"),
+    ("I", "wrapping_abs"): ("wrappingAbs", [], "I"),
+    ("I", "is_negative"): ("isNegative", [], "B"),
+    ("I", "is_positive"): ("isPositive", [], "B"),
 }
 CMP = {"<": "Lt", "<=": "Le", ">": "Gt", ">=": "Ge", "==": "Eq", "!=": "Ne"}
 
@@ -201,6 +296,10 @@ def to_lean(ast, env):
         f, fty = to_lean(ast[3], env)
         if tty != fty:
             raise Unsupported("if branches differ in type: %s vs %s" % (tty, fty))
+        if "let " in t:
+            t = "(%s)" % t
+        if "let " in f:
+            f = "(%s)" % f
         return ("if %s then %s else %s" % (c, t, f), tty)
     if k == "var":
         name = ast[1]
@@ -232,12 +331,10 @@ def to_lean(ast, env):
         return ("(asSelf %s)" % paren(t), "U")
     if k == "call":
         _, name, recv, args = ast
-        if name not in METHODS:
-            raise Unsupported("unsupported method " + name)
-        fn, argtys, rty = METHODS[name]
         r, rt = to_lean(recv, env)
-        if rt != "U":
-            raise Unsupported("method receiver not unsigned")
+        if (rt, name) not in METHODS:
+            raise Unsupported("unsupported method %s on %s" % (name, rt))
+        fn, argtys, rty = METHODS[(rt, name)]
         ts = []
         for a, want in zip(args, argtys):
             t, ty = to_lean(a, env)
@@ -246,7 +343,41 @@ def to_lean(ast, env):
             ts.append(paren(t))
         if len(args) != len(argtys):
             raise Unsupported("arity")
-        return ("(%s %s %s)" % (fn, paren(r), " ".join(ts)), rty)
+        return ("(%s)" % " ".join([fn, paren(r)] + ts), rty)
+    if k == "const":
+        return ({"MAX": "uMax", "MIN": "0"}[ast[2]], "U")
+    if k == "tuple":
+        parts = [to_lean(x, env) for x in ast[1]]
+        if any(ty != "B" for _, ty in parts):
+            raise Unsupported("tuple of non-bools")
+        return ("(%s)" % ", ".join(t for t, _ in parts), ("btuple", len(parts)))
+    if k == "match":
+        _, scrut, arms = ast
+        st, sty = to_lean(scrut, env)
+        if sty == "B":
+            width = None
+        elif isinstance(sty, tuple) and sty[0] == "btuple":
+            width = sty[1]
+        else:
+            raise Unsupported("match on %s" % (sty,))
+
+        def pat(p):
+            if p[0] == "plit":
+                if width is not None and p[1] != "_":
+                    raise Unsupported("scalar pattern for a tuple")
+                return p[1]
+            if width is None or len(p[1]) != width or any(q[0] != "plit" for q in p[1]):
+                raise Unsupported("pattern shape")
+            return "(%s)" % ", ".join(q[1] for q in p[1])
+        out, rty = [], None
+        for pats, body in arms:
+            bt, bty = to_lean(body, env)
+            if rty is None:
+                rty = bty
+            elif rty != bty:
+                raise Unsupported("match arms differ in type")
+            out.append("| %s => %s" % (" | ".join(pat(p) for p in pats), paren(bt)))
+        return ("(match %s with %s)" % (st, " ".join(out)), rty)
     if k == "bin":
         _, op, a, b = ast
         ta, tya = to_lean(a, env)
@@ -255,6 +386,9 @@ def to_lean(ast, env):
             if tya in ("I", "U") and tyb == "Lit":
                 pre = "s" if tya == "I" else "u"
                 return ("(%s%sLit %s %s)" % (pre, CMP[op], paren(ta), paren(tb)), "B")
+            if tya == tyb and tya in ("I", "U"):
+                pre = "s" if tya == "I" else "u"
+                return ("(%s%s %s %s)" % (pre, CMP[op], paren(ta), paren(tb)), "B")
             if tya == "B" and tyb == "B" and op in ("==", "!="):
                 return ("(%s %s %s)" % (paren(ta), "==" if op == "==" else "!=", paren(tb)), "B")
             raise Unsupported("comparison %s between %s and %s" % (op, tya, tyb))
